@@ -157,10 +157,19 @@ def rule_b(ctx):
                 ctx.ob("final-out-of-sync-carries-lag|%s" % b.name, is_lag(b.origins(e.node["r"]["ops"][0], e)),
                        "final jump: OutOfSync carries the lag reported by the clock", [e])
             # Ok is still returned on every other outcome (no tolerance: lags ignored)
-            oks = [r for r in K.ret_assigns(b) if K.result_variant_of_ret(r) == "Ok" and b.dominates(s, r)]
-            bad = [c for r in oks for c in b.conditions(r) if b.dominates(s, c.site) and c.kind in ("variant", "cmp", "call", "bool")]
+            # every other outcome is Ok: after the final synchronize the only failure that can be produced is that OutOfSync
+            after = [r for r in K.ret_assigns(b) if b.can_reach(s, r)]
+            oks = [r for r in after if K.result_variant_of_ret(r) == "Ok"]
+            bad = []
+            for r in after:
+                if K.result_variant_of_ret(r) != "Err":
+                    continue
+                ops = r.args() if r.is_term else r.node["r"]["ops"]
+                src = frozenset().union(*[b.origins(op, r) for op in ops]) if ops else frozenset()
+                if not K.flows_from(b, src, lambda t: t[0] == "agg" and len(t) > 4 and t[4] == "OutOfSync"):
+                    bad.append(r)
             ctx.ob("final-lag-ignored-without-tolerance|%s" % b.name, bool(oks) and not bad,
-                   "after the final synchronize, Ok is returned on every outcome other than the OutOfSync-above-tolerance branch", oks + [c.site for c in bad])
+                   "after the final synchronize the call returns Ok, or the OutOfSync failure decided above, and nothing else", oks + bad)
 
 
 def rule_c(ctx):
